@@ -362,7 +362,9 @@ func (c *Ctx) lane(idx int) {
 				buf.WriteByte('\n')
 				j++
 			}
-			child.in.Write(buf.Bytes())
+			// asynchronous: a child stuck on one case stops reading its stdin, and a batch larger than the pipe
+			// buffer would block this write (and with it the watchdog below) until the child dies by itself
+			go func(w io.Writer, b []byte) { w.Write(b) }(child.in, append([]byte(nil), buf.Bytes()...))
 			k := i
 			for k < j {
 				to := checks[batch[k].Check].Timeout
